@@ -101,4 +101,1077 @@ lemma visited_eq (d : ℕ → Bool) (i : ℤ) (J : ℕ) :
     · simp only [hd, if_true]; push_cast; ext <;> simp <;> ring
     · simp only [hd]; simp; ring
 
+/-! ## (3) the selection kernel of one doubling -/
+
+/-- number of in-slice indices of a finite index set -/
+def nS (S : ℤ → Bool) (A : Finset ℤ) : ℕ := (A.filter (fun x => S x = true)).card
+
+/-- **Selection kernel of one doubling**, start `i` in the old half `A`, new half `N`: the new
+    half's candidate is uniform over the in-slice points of `N` (`progressive_uniform`) and replaces
+    the current state with probability `min(1, n_new/n_old)` (top-level rule of `loopBody`);
+    otherwise the state stays at `i`. -/
+def stepKernel (S : ℤ → Bool) (A N : Finset ℤ) (i k : ℤ) : ℚ :=
+  (if k ∈ N ∧ S k = true then min 1 ((nS S N : ℚ) / nS S A) * (1 / nS S N) else 0)
+    + (if k = i then 1 - min 1 ((nS S N : ℚ) / nS S A) else 0)
+
+/-- the kernel on the union of the two halves: the *old* half is the one containing the start -/
+def doublingKernel (S : ℤ → Bool) (A N : Finset ℤ) (i k : ℤ) : ℚ :=
+  if i ∈ A then stepKernel S A N i k else stepKernel S N A i k
+
+lemma nS_pos (S : ℤ → Bool) (A : Finset ℤ) (i : ℤ) (hi : i ∈ A) (hS : S i = true) : 0 < nS S A :=
+  Finset.card_pos.mpr ⟨i, by simp [hi, hS]⟩
+
+lemma min_one_div_mul (a b : ℚ) (ha : 0 < a) (hb : 0 < b) :
+    min 1 (b / a) * (1 / b) = min (1 / a) (1 / b) := by
+  rw [min_mul_of_nonneg _ _ (by positivity), min_comm]
+  congr 1
+  · field_simp
+  · ring
+
+/-! ## in-slice counts of index intervals -/
+
+/-- number of in-slice indices in `[a, a + n)` -/
+def cnt (S : ℤ → Bool) (a : ℤ) (n : ℕ) : ℕ := ∑ t ∈ range n, if S (a + t) = true then 1 else 0
+
+lemma cnt_succ (S : ℤ → Bool) (a : ℤ) (n : ℕ) :
+    cnt S a (n + 1) = cnt S a n + (if S (a + n) = true then 1 else 0) := by
+  unfold cnt; rw [Finset.sum_range_succ]
+
+lemma cnt_succ' (S : ℤ → Bool) (a : ℤ) (n : ℕ) :
+    cnt S a (n + 1) = (if S a = true then 1 else 0) + cnt S (a + 1) n := by
+  unfold cnt; rw [Finset.sum_range_succ', Nat.add_comm]
+  congr 1
+  · simp
+  · apply Finset.sum_congr rfl; intro t _; push_cast
+    rw [show a + 1 + (t : ℤ) = a + ((t : ℤ) + 1) by ring]
+
+lemma cnt_add (S : ℤ → Bool) (a : ℤ) (m n : ℕ) :
+    cnt S a (m + n) = cnt S a m + cnt S (a + m) n := by
+  unfold cnt; rw [Finset.sum_range_add]
+  congr 1
+  apply Finset.sum_congr rfl; intro t _; push_cast; rw [add_assoc]
+
+lemma cnt_pos (S : ℤ → Bool) (a : ℤ) (n : ℕ) (i : ℤ) (h1 : a ≤ i) (h2 : i < a + n) (hS : S i = true) :
+    0 < cnt S a n := by
+  unfold cnt
+  apply Finset.sum_pos'
+  · intro _ _; positivity
+  · refine ⟨(i - a).toNat, ?_, ?_⟩
+    · rw [Finset.mem_range]; omega
+    · rw [Int.toNat_of_nonneg (by omega)]
+      rw [show a + (i - a) = i by ring, hS]; simp
+
+/-- `cnt` is the cardinality of the set of in-slice indices of the interval -/
+lemma cnt_eq_card (S : ℤ → Bool) (a : ℤ) (n : ℕ) :
+    cnt S a n = ((Finset.Ico a (a + n)).filter (fun x => S x = true)).card := by
+  induction n with
+  | zero => simp [cnt]
+  | succ n ih =>
+    rw [cnt_succ, ih]
+    have : Finset.Ico a (a + ((n + 1 : ℕ) : ℤ)) = insert (a + n) (Finset.Ico a (a + n)) := by
+      ext x; simp only [Finset.mem_Ico, Finset.mem_insert]; push_cast; omega
+    rw [this, Finset.filter_insert]
+    by_cases h : S (a + n) = true
+    · rw [if_pos h, if_pos h, Finset.card_insert_of_notMem]
+      simp
+    · rw [if_neg h, if_neg h]; simp
+
+/-! ## (2) link to the model: orbit points indexed by `ℤ` -/
+section Link
+variable {Z : Type}
+
+/-- the orbit point with index `k`: `z_k = Φ^k z_0` (`Φ = c.step 1`, `Φ⁻¹ = c.step (-1)`) -/
+def pt (c : Ctx Z) (z0 : Z) : ℤ → Z
+  | Int.ofNat n => (c.step 1)^[n] z0
+  | Int.negSucc n => (c.step (-1))^[n + 1] z0
+
+/-- the two directions of the integrator are mutually inverse (`leapfrog_reversible`) -/
+def StepInverse (c : Ctx Z) : Prop :=
+  (∀ z, c.step (-1) (c.step 1 z) = z) ∧ (∀ z, c.step 1 (c.step (-1) z) = z)
+
+lemma pt_succ (c : Ctx Z) (h : StepInverse c) (z0 : Z) (k : ℤ) : c.step 1 (pt c z0 k) = pt c z0 (k + 1) := by
+  cases k with
+  | ofNat n =>
+    show c.step 1 ((c.step 1)^[n] z0) = pt c z0 (Int.ofNat (n + 1))
+    simp only [pt]; rw [Function.iterate_succ_apply']
+  | negSucc n =>
+    cases n with
+    | zero => simp only [pt, Function.iterate_succ_apply', Function.iterate_zero, id]; rw [h.2]; rfl
+    | succ n =>
+      have : Int.negSucc (n + 1) + 1 = Int.negSucc n := by omega
+      rw [this]; simp only [pt]
+      rw [Function.iterate_succ_apply' (f := c.step (-1)) (n := n + 1), h.2]
+
+lemma pt_pred (c : Ctx Z) (h : StepInverse c) (z0 : Z) (k : ℤ) : c.step (-1) (pt c z0 k) = pt c z0 (k - 1) := by
+  have := pt_succ c h z0 (k - 1)
+  rw [sub_add_cancel] at this
+  rw [← this, h.1]
+
+/-- signed step: `c.step v` moves the index by `v` for `v = ±1` -/
+lemma pt_step (c : Ctx Z) (h : StepInverse c) (z0 : Z) (v : ℤ) (hv : v = 1 ∨ v = -1) (k : ℤ) :
+    c.step v (pt c z0 k) = pt c z0 (k + v) := by
+  rcases hv with rfl | rfl
+  · exact pt_succ c h z0 k
+  · exact pt_pred c h z0 k
+
+lemma orbit_succ_last (c : Ctx Z) (v : ℤ) (z : Z) (n : ℕ) :
+    orbit c v z (n + 1) = orbit c v z n ++ [(c.step v)^[n + 1] z] := by
+  induction n generalizing z with
+  | zero => simp [orbit]
+  | succ n ih =>
+    rw [orbit, ih (c.step v z)]
+    simp only [orbit, List.cons_append, Function.iterate_succ_apply]
+
+lemma iterate_pt (c : Ctx Z) (h : StepInverse c) (z0 : Z) (v : ℤ) (hv : v = 1 ∨ v = -1) (k : ℤ) (n : ℕ) :
+    (c.step v)^[n] (pt c z0 k) = pt c z0 (k + v * n) := by
+  induction n with
+  | zero => simp
+  | succ n ih =>
+    rw [Function.iterate_succ_apply', ih, pt_step c h z0 v hv]
+    congr 1; push_cast; ring
+
+lemma orbit_getLast (c : Ctx Z) (h : StepInverse c) (z0 : Z) (v : ℤ) (hv : v = 1 ∨ v = -1) (k : ℤ) (n : ℕ)
+    (hn : 0 < n) : (orbit c v (pt c z0 k) n).getLast? = some (pt c z0 (k + v * n)) := by
+  obtain ⟨n, rfl⟩ : ∃ m, n = m + 1 := ⟨n - 1, by omega⟩
+  rw [orbit_succ_last, List.getLast?_concat, iterate_pt c h z0 v hv]
+
+/-- in-slice indicator along the orbit -/
+def sliceAt (c : Ctx Z) (z0 : Z) (k : ℤ) : Bool := inSlice c (pt c z0 k)
+
+lemma filter_single_len (c : Ctx Z) (z0 : Z) (x : ℤ) :
+    ([pt c z0 x].filter (inSlice c)).length = if sliceAt c z0 x = true then 1 else 0 := by
+  by_cases hs : sliceAt c z0 x = true
+  · have hs' : inSlice c (pt c z0 x) = true := hs
+    simp [hs, hs']
+  · have hs' : ¬ inSlice c (pt c z0 x) = true := hs
+    simp [hs, hs']
+
+lemma orbit_count_fwd (c : Ctx Z) (h : StepInverse c) (z0 : Z) (k : ℤ) (n : ℕ) :
+    ((orbit c 1 (pt c z0 k) n).filter (inSlice c)).length = cnt (sliceAt c z0) (k + 1) n := by
+  induction n with
+  | zero => simp [orbit, cnt]
+  | succ n ih =>
+    rw [orbit_succ_last, List.filter_append, List.length_append, ih, cnt_succ,
+      iterate_pt c h z0 1 (Or.inl rfl)]
+    congr 1
+    have : k + 1 * ((n + 1 : ℕ) : ℤ) = k + 1 + n := by push_cast; ring
+    rw [this]
+    exact filter_single_len c z0 _
+
+lemma orbit_count_bwd (c : Ctx Z) (h : StepInverse c) (z0 : Z) (k : ℤ) (n : ℕ) :
+    ((orbit c (-1) (pt c z0 k) n).filter (inSlice c)).length = cnt (sliceAt c z0) (k - n) n := by
+  induction n with
+  | zero => simp [orbit, cnt]
+  | succ n ih =>
+    rw [orbit_succ_last, List.filter_append, List.length_append, ih,
+      iterate_pt c h z0 (-1) (Or.inr rfl)]
+    have e1 : k + -1 * ((n + 1 : ℕ) : ℤ) = k - ((n + 1 : ℕ) : ℤ) := by ring
+    have e2 : k - ((n + 1 : ℕ) : ℤ) + 1 = k - n := by push_cast; ring
+    rw [cnt_succ' (sliceAt c z0) (k - ((n + 1 : ℕ) : ℤ)) n, e1, e2, Nat.add_comm]
+    congr 1
+    exact filter_single_len c z0 _
+
+/-- Invariant of the doubling loop: the visited indices are exactly `[lo, hi] ∋ 0`, the two ends
+    of the trajectory are the orbit points with these indices, and `Loop.n` counts the in-slice
+    indices of the interval. -/
+structure LoopInv (c : Ctx Z) (z0 : Z) (st : Loop Z) (lo hi : ℤ) : Prop where
+  lo_le : lo ≤ 0
+  hi_ge : 0 ≤ hi
+  zminus : st.zminus = pt c z0 lo
+  zplus : st.zplus = pt c z0 hi
+  count : st.n = cnt (sliceAt c z0) lo (hi - lo + 1).toNat
+  full : st.s = true → hi - lo + 1 = 2 ^ st.j
+
+/-- direction bit drawn by `loopBody` in state `st` (`true` = direction `−1`) -/
+def dirBit (st : Loop Z) : Bool := !decide ((popU st.us).1 < 1 / 2)
+
+lemma loopBody_j (c : Ctx Z) (guard : Z → Bool) (st : Loop Z) : (loopBody c guard st).j = st.j + 1 := by
+  simp only [loopBody]
+
+lemma loopBody_inv (c : Ctx Z) (hinv : StepInverse c) (guard : Z → Bool) (z0 : Z) (st : Loop Z)
+    (lo hi : ℤ) (I : LoopInv c z0 st lo hi) (hs : st.s = true) :
+    ∃ len : ℕ, 0 < len ∧ len ≤ 2 ^ st.j ∧ ((loopBody c guard st).s = true → len = 2 ^ st.j) ∧
+      LoopInv c z0 (loopBody c guard st) (if dirBit st then lo - len else lo)
+        (if dirBit st then hi else hi + len) := by
+  have hfull := I.full hs
+  have hlohi : 0 ≤ hi - lo + 1 := by have := I.lo_le; have := I.hi_ge; omega
+  by_cases hud : (popU st.us).1 < 1 / 2
+  · -- direction +1
+    have hb : dirBit st = false := by simp only [dirBit, hud, decide_true, Bool.not_true]
+    have T := buildTree_inv c 1 st.j st.zplus (popU st.us).2
+    simp only [loopBody, hud, if_true, hb, Bool.false_eq_true, if_false,
+      show ((1 : Int) = -1) = False by decide]
+    generalize buildTree c 1 st.j st.zplus (popU st.us).2 = b at T ⊢
+    obtain ⟨t, us1⟩ := b
+    simp only at T ⊢
+    refine ⟨t.leaves.length, T.len_pos, T.len_le, ?_, ?_⟩
+    · intro h
+      have : t.s = true := by
+        by_cases hts : t.s = true
+        · exact hts
+        · simp [hts] at h
+      exact T.len_full this
+    · have hlast := T.far_last
+      rw [T.leaves_orbit, I.zplus, orbit_getLast c hinv z0 1 (Or.inl rfl) hi _ T.len_pos] at hlast
+      have hfar : t.zplus = pt c z0 (hi + t.leaves.length) := by
+        simp only [Tree.far, show ((1 : Int) = -1) = False by decide, if_false, Option.some.injEq] at hlast
+        rw [← hlast]; congr 1; ring
+      have hcount : t.n = cnt (sliceAt c z0) (hi + 1) t.leaves.length := by
+        rw [T.count, T.leaves_orbit, I.zplus, orbit_count_fwd c hinv, orbit_length]
+      constructor
+      · exact I.lo_le
+      · have := I.hi_ge; omega
+      · split <;> exact I.zminus
+      · split <;> exact hfar
+      · split <;>
+        · show st.n + t.n = _
+          rw [I.count, hcount]
+          have e : (hi + (t.leaves.length : ℤ) - lo + 1).toNat = (hi - lo + 1).toNat + t.leaves.length := by omega
+          rw [e, cnt_add]
+          congr 2
+          rw [Int.toNat_of_nonneg hlohi]; ring
+      · intro h
+        have hts : t.s = true := by
+          by_cases hts : t.s = true
+          · exact hts
+          · split at h <;> simp [hts] at h
+        have hl := T.len_full hts
+        split <;>
+        · simp only
+          rw [pow_succ, hl]; push_cast; linarith
+  · -- direction −1
+    have hb : dirBit st = true := by simp only [dirBit, hud, decide_false, Bool.not_false]
+    have T := buildTree_inv c (-1) st.j st.zminus (popU st.us).2
+    simp only [loopBody, hud, if_false, hb, if_true]
+    generalize buildTree c (-1) st.j st.zminus (popU st.us).2 = b at T ⊢
+    obtain ⟨t, us1⟩ := b
+    simp only at T ⊢
+    refine ⟨t.leaves.length, T.len_pos, T.len_le, ?_, ?_⟩
+    · intro h
+      have : t.s = true := by
+        by_cases hts : t.s = true
+        · exact hts
+        · simp [hts] at h
+      exact T.len_full this
+    · have hlast := T.far_last
+      rw [T.leaves_orbit, I.zminus, orbit_getLast c hinv z0 (-1) (Or.inr rfl) lo _ T.len_pos] at hlast
+      have hfar : t.zminus = pt c z0 (lo - t.leaves.length) := by
+        simp only [Tree.far, if_true, Option.some.injEq] at hlast
+        rw [← hlast]; congr 1; ring
+      have hcount : t.n = cnt (sliceAt c z0) (lo - t.leaves.length) t.leaves.length := by
+        rw [T.count, T.leaves_orbit, I.zminus, orbit_count_bwd c hinv, orbit_length]
+      constructor
+      · have := I.lo_le; omega
+      · exact I.hi_ge
+      · split <;> exact hfar
+      · split <;> exact I.zplus
+      · split <;>
+        · show st.n + t.n = _
+          rw [I.count, hcount]
+          have e : (hi - (lo - (t.leaves.length : ℤ)) + 1).toNat = t.leaves.length + (hi - lo + 1).toNat := by omega
+          rw [e, cnt_add, Nat.add_comm]
+          congr 2
+          ring
+      · intro h
+        have hts : t.s = true := by
+          by_cases hts : t.s = true
+          · exact hts
+          · split at h <;> simp [hts] at h
+        have hl := T.len_full hts
+        split <;>
+        · simp only
+          rw [pow_succ, hl]; push_cast; linarith
+
+/-- the state in which `nutsStep` enters the doubling loop -/
+def loopInit (z0 : Z) (us : List Rat) : Loop Z :=
+  { cur := z0, zminus := z0, zplus := z0, j := 0, s := true, n := 1, acc := false,
+    last := [], nodes := 0, us := us }
+
+lemma nutsStep_eq (c : Ctx Z) (guard : Z → Bool) (md : ℕ) (z0 : Z) (us : List Rat) :
+    nutsStep c guard md z0 us = loop c guard md (md + 1) (loopInit z0 us) := rfl
+
+lemma loopInit_inv (c : Ctx Z) (z0 : Z) (us : List Rat) (h0 : inSlice c z0 = true) :
+    LoopInv c z0 (loopInit z0 us) 0 0 := by
+  have hs : sliceAt c z0 0 = true := h0
+  refine ⟨le_refl _, le_refl _, rfl, rfl, ?_, fun _ => by simp [loopInit]⟩
+  show 1 = cnt (sliceAt c z0) 0 (0 - 0 + 1 : ℤ).toNat
+  have : (0 - 0 + 1 : ℤ).toNat = 1 := by decide
+  rw [this, cnt, Finset.sum_range_one]
+  simp [hs]
+
+lemma loop_inv (c : Ctx Z) (hinv : StepInverse c) (guard : Z → Bool) (z0 : Z) (md fuel : ℕ) (st : Loop Z)
+    (lo hi : ℤ) (I : LoopInv c z0 st lo hi) :
+    ∃ lo' hi', LoopInv c z0 (loop c guard md fuel st) lo' hi' := by
+  induction fuel generalizing st lo hi with
+  | zero => exact ⟨lo, hi, I⟩
+  | succ fuel ih =>
+    simp only [loop]
+    split
+    · rename_i h
+      simp only [Bool.and_eq_true] at h
+      obtain ⟨len, _, _, _, I'⟩ := loopBody_inv c hinv guard z0 st lo hi I h.1
+      exact ih _ _ _ I'
+    · exact ⟨lo, hi, I⟩
+
+lemma loop_eq_iterate (c : Ctx Z) (guard : Z → Bool) (md fuel : ℕ) (st : Loop Z) :
+    ∃ m ≤ fuel, loop c guard md fuel st = (loopBody c guard)^[m] st ∧
+      ∀ t < m, ((loopBody c guard)^[t] st).s = true := by
+  induction fuel generalizing st with
+  | zero => exact ⟨0, le_refl _, rfl, fun t ht => by omega⟩
+  | succ fuel ih =>
+    simp only [loop]
+    split
+    · rename_i h
+      simp only [Bool.and_eq_true] at h
+      obtain ⟨m, hm, e, hall⟩ := ih (loopBody c guard st)
+      refine ⟨m + 1, by omega, by rw [e, Function.iterate_succ_apply], ?_⟩
+      intro t ht
+      cases t with
+      | zero => exact h.1
+      | succ t => rw [Function.iterate_succ_apply]; exact hall t (by omega)
+    · exact ⟨0, by omega, rfl, fun t ht => by omega⟩
+
+end Link
+
+/-! ## (4) the orbit-level transition -/
+
+/-- What the orbit-level transition needs to know about one trajectory, indexed by `ℤ`:
+    `S k` — the point `z_k` is in the slice; `nd k` — it is not diverged (`s' = 1` at the leaf);
+    `ut j a` — the no-U-turn test of the index block `[a, a + 2^j)` passes (any function of the
+    block); `g k` — the finiteness guard of the top-level acceptance (`fun _ => true` for none). -/
+structure Orb where
+  S : ℤ → Bool
+  nd : ℤ → Bool
+  ut : ℕ → ℤ → Bool
+  g : ℤ → Bool
+
+/-- the flag `s'` returned by `buildTree` for the block `[a, a + 2^j)`: all leaves not diverged and
+    the no-U-turn test passes on every aligned sub-block (`s := t1.s && t2.s && noUturn`) -/
+def Orb.good (o : Orb) : ℕ → ℤ → Bool
+  | 0, a => o.nd a
+  | j + 1, a => o.good j a && o.good j (a + 2 ^ j) && o.ut (j + 1) a
+
+/-- law of the accepted candidate of the block `[a, a + 2^j)`: uniform over its in-slice points
+    (`progressive_uniform`), the mass of points failing the guard removed (they are rejected) -/
+def Orb.unif (o : Orb) (a : ℤ) (j : ℕ) (k : ℤ) : ℚ :=
+  if a ≤ k ∧ k < a + 2 ^ j ∧ o.S k = true ∧ o.g k = true then 1 / (cnt o.S a (2 ^ j) : ℚ) else 0
+
+/-- `min(1, n_new/n_old)` if the new half `[aN, aN + 2^j)` reports `s' = 1`, else `0` -/
+def Orb.acc (o : Orb) (j : ℕ) (aO aN : ℤ) : ℚ :=
+  if o.good j aN = true then min 1 ((cnt o.S aN (2 ^ j) : ℚ) / (cnt o.S aO (2 ^ j) : ℚ)) else 0
+
+/-- probability that the state is *not* replaced in the doubling (old half `aO`, new half `aN`) -/
+def Orb.stay (o : Orb) (j : ℕ) (aO aN : ℤ) : ℚ :=
+  1 - o.acc j aO aN * ∑ t ∈ range (2 ^ j), o.unif aN j (aN + t)
+
+/-- orbit-level loop state: visited block `[lo, lo + 2^j)`, continuation flag, law of the current state -/
+structure OSt where
+  lo : ℤ
+  j : ℕ
+  s : Bool
+  dist : ℤ → ℚ
+
+/-- one doubling in direction `b` (`true` = `−1`), the orbit-level image of `loopBody` -/
+def Orb.body (o : Orb) (b : Bool) (st : OSt) : OSt :=
+  let nlo : ℤ := if b then st.lo - 2 ^ st.j else st.lo + 2 ^ st.j
+  let lo' : ℤ := if b then st.lo - 2 ^ st.j else st.lo
+  { lo := lo', j := st.j + 1,
+    s := o.good st.j nlo && o.ut (st.j + 1) lo',
+    dist := fun x => o.stay st.j st.lo nlo * st.dist x + o.acc st.j st.lo nlo * o.unif nlo st.j x }
+
+/-- the doubling loop with a fair coin for every direction: law of the final state -/
+def Orb.walk (o : Orb) : ℕ → OSt → ℤ → ℚ
+  | 0, st => st.dist
+  | r + 1, st =>
+    if st.s = true then
+      fun k => 1 / 2 * o.walk r (o.body true st) k + 1 / 2 * o.walk r (o.body false st) k
+    else st.dist
+
+/-- start of a transition at index `i` -/
+def oinit (i : ℤ) : OSt := { lo := i, j := 0, s := true, dist := fun x => if x = i then 1 else 0 }
+
+/-- **orbit-level NUTS transition**: probability of moving from index `i` to index `k` with at
+    most `M = max_depth + 1` doublings -/
+def Orb.P (o : Orb) (M : ℕ) (i k : ℤ) : ℚ := o.walk M (oinit i) k
+
+/-- state after `J` doublings with the direction bits of `m` (`bit t = m.testBit t`) -/
+def Orb.fwd (o : Orb) (m : ℕ) : ℕ → OSt → OSt
+  | 0, st => st
+  | J + 1, st => o.body (m.testBit J) (o.fwd m J st)
+
+/-- all of `s_0 … s_{J-1}` are `1`: the loop really performs `J` doublings along the bits of `m` -/
+def Orb.al (o : Orb) (m : ℕ) : ℕ → OSt → Bool
+  | 0, _ => true
+  | J + 1, st => o.al m J st && (o.fwd m J st).s
+
+/-- contribution of "exactly `J` doublings with bits `m`" to the law of the final state when `r`
+    doublings are allowed -/
+def Orb.term (o : Orb) (r J m : ℕ) (st : OSt) (k : ℤ) : ℚ :=
+  if o.al m J st = true ∧ ((o.fwd m J st).s = false ∨ J = r) then (o.fwd m J st).dist k else 0
+
+lemma Orb.fwd_shift (o : Orb) (m J : ℕ) (st : OSt) :
+    o.fwd m (J + 1) st = o.fwd (m / 2) J (o.body (m.testBit 0) st) := by
+  induction J with
+  | zero => rfl
+  | succ J ih =>
+    rw [Orb.fwd, ih, Nat.testBit_succ]; rfl
+
+lemma Orb.al_shift (o : Orb) (m J : ℕ) (st : OSt) :
+    o.al m (J + 1) st = (st.s && o.al (m / 2) J (o.body (m.testBit 0) st)) := by
+  induction J with
+  | zero => simp [Orb.al, Orb.fwd]
+  | succ J ih =>
+    rw [Orb.al, ih, o.fwd_shift, Bool.and_assoc]; rfl
+
+lemma Orb.term_succ (o : Orb) (r J m : ℕ) (st : OSt) (k : ℤ) :
+    o.term (r + 1) (J + 1) m st k =
+      if st.s = true then o.term r J (m / 2) (o.body (m.testBit 0) st) k else 0 := by
+  unfold Orb.term
+  rw [o.al_shift, o.fwd_shift]
+  by_cases hs : st.s = true
+  · simp only [hs, Bool.true_and, if_true, Nat.add_right_cancel_iff]
+  · simp [hs]
+
+lemma Orb.term_zero (o : Orb) (r m : ℕ) (st : OSt) (k : ℤ) :
+    o.term (r + 1) 0 m st k = if st.s = true then 0 else st.dist k := by
+  unfold Orb.term
+  by_cases hs : st.s = true <;> simp [Orb.al, Orb.fwd, hs]
+
+lemma sum_range_double (f : ℕ → ℚ) (n : ℕ) :
+    ∑ x ∈ range (2 * n), f x = ∑ m ∈ range n, (f (2 * m) + f (2 * m + 1)) := by
+  induction n with
+  | zero => simp
+  | succ n ih =>
+    rw [show 2 * (n + 1) = 2 * n + 1 + 1 by ring, Finset.sum_range_succ, Finset.sum_range_succ, ih,
+      Finset.sum_range_succ]; ring
+
+/-- **closed form of the loop**: sum over the number `J` of doublings performed and over the
+    `2^J` direction sequences, each with weight `2^{-J}` -/
+lemma Orb.walk_eq_sum (o : Orb) (r : ℕ) (st : OSt) (k : ℤ) :
+    o.walk r st k = ∑ J ∈ range (r + 1), (1 / 2 : ℚ) ^ J * ∑ m ∈ range (2 ^ J), o.term r J m st k := by
+  induction r generalizing st with
+  | zero =>
+    simp [Orb.walk, Orb.term, Orb.al, Orb.fwd]
+  | succ r ih =>
+    rw [Finset.sum_range_succ']
+    have hstep : ∀ J, ∑ m ∈ range (2 ^ (J + 1)), o.term (r + 1) (J + 1) m st k =
+        if st.s = true then ∑ m ∈ range (2 ^ J), (o.term r J m (o.body false st) k + o.term r J m (o.body true st) k)
+        else 0 := by
+      intro J
+      rw [pow_succ, Nat.mul_comm, sum_range_double]
+      by_cases hs : st.s = true
+      · simp only [hs, if_true]
+        apply Finset.sum_congr rfl
+        intro m _
+        rw [o.term_succ, o.term_succ]
+        simp only [hs, if_true]
+        have e1 : 2 * m / 2 = m := by omega
+        have e2 : (2 * m + 1) / 2 = m := by omega
+        have b1 : (2 * m).testBit 0 = false := by simp [Nat.testBit_zero]
+        have b2 : (2 * m + 1).testBit 0 = true := by simp [Nat.testBit_zero]
+        rw [e1, e2, b1, b2]
+      · simp only [hs]
+        apply Finset.sum_eq_zero
+        intro m _
+        rw [o.term_succ, o.term_succ]; simp [hs]
+    simp only [hstep, pow_zero, one_mul, Finset.range_one, Finset.sum_singleton, o.term_zero]
+    by_cases hs : st.s = true
+    · simp only [Orb.walk, hs, if_true, add_zero]
+      rw [ih, ih, Finset.mul_sum, Finset.mul_sum, ← Finset.sum_add_distrib]
+      apply Finset.sum_congr rfl
+      intro J _
+      rw [Finset.sum_add_distrib, pow_succ]; ring
+    · simp [Orb.walk, hs]
+
+/-! ### the state reached from a start index along given bits -/
+
+lemma Orb.fwd_j (o : Orb) (m J : ℕ) (st : OSt) : (o.fwd m J st).j = st.j + J := by
+  induction J with
+  | zero => rfl
+  | succ J ih => simp only [Orb.fwd, Orb.body, ih]; ring
+
+lemma Orb.fwd_lo (o : Orb) (m J : ℕ) (i : ℤ) :
+    (o.fwd m J (oinit i)).lo = i - ((m % 2 ^ J : ℕ) : ℤ) := by
+  rw [← bsum_of_testBit]
+  induction J with
+  | zero => simp [Orb.fwd, oinit, bsum]
+  | succ J ih =>
+    have hj : (o.fwd m J (oinit i)).j = J := by rw [o.fwd_j]; simp [oinit]
+    simp only [Orb.fwd, Orb.body, bsum, ih, hj]
+    by_cases hb : m.testBit J = true
+    · simp only [hb, if_true]; push_cast; ring
+    · simp only [hb]; simp
+
+lemma Orb.fwd_congr (o : Orb) (m m' J : ℕ) (st : OSt) (h : ∀ t < J, m.testBit t = m'.testBit t) :
+    o.fwd m J st = o.fwd m' J st := by
+  induction J with
+  | zero => rfl
+  | succ J ih => rw [Orb.fwd, Orb.fwd, ih (fun t ht => h t (by omega)), h J (by omega)]
+
+lemma Orb.al_congr (o : Orb) (m m' J : ℕ) (st : OSt) (h : ∀ t < J, m.testBit t = m'.testBit t) :
+    o.al m J st = o.al m' J st := by
+  induction J with
+  | zero => rfl
+  | succ J ih =>
+    rw [Orb.al, Orb.al, ih (fun t ht => h t (by omega)),
+      o.fwd_congr m m' J st (fun t ht => h t (by omega))]
+
+/-- **the loop is still running after `J` doublings iff the visited block is `good`** -/
+lemma Orb.alive_good (o : Orb) (m J : ℕ) (i : ℤ) (hnd : o.nd i = true) :
+    (o.al m J (oinit i) && (o.fwd m J (oinit i)).s) = o.good J (i - ((m % 2 ^ J : ℕ) : ℤ)) := by
+  induction J with
+  | zero => simp [Orb.al, Orb.fwd, oinit, Orb.good, hnd]
+  | succ J ih =>
+    have hj : (o.fwd m J (oinit i)).j = J := by rw [o.fwd_j]; simp [oinit]
+    have hlo := o.fwd_lo m J i
+    have hlo' := o.fwd_lo m (J + 1) i
+    rw [Orb.al, Bool.and_assoc, ← Bool.and_assoc (o.al m J (oinit i)), ih]
+    simp only [Orb.fwd, Orb.body, hj, hlo] at hlo' ⊢
+    simp only [Orb.good]
+    by_cases hb : m.testBit J = true
+    · simp only [hb, if_true] at hlo' ⊢
+      rw [← hlo', sub_add_cancel]
+      cases o.good J (i - ((m % 2 ^ J : ℕ) : ℤ)) <;> cases o.good J (i - ((m % 2 ^ J : ℕ) : ℤ) - 2 ^ J) <;> simp
+    · simp only [hb] at hlo' ⊢
+      simp only [Bool.false_eq_true, if_false] at hlo' ⊢
+      rw [← hlo']
+      cases o.good J (i - ((m % 2 ^ J : ℕ) : ℤ)) <;> cases o.good J (i - ((m % 2 ^ J : ℕ) : ℤ) + 2 ^ J) <;> simp
+
+/-- the law of the current state is supported in the visited block -/
+lemma Orb.fwd_support (o : Orb) (m J : ℕ) (i k : ℤ)
+    (hk : ¬ ((o.fwd m J (oinit i)).lo ≤ k ∧ k < (o.fwd m J (oinit i)).lo + 2 ^ J)) :
+    (o.fwd m J (oinit i)).dist k = 0 := by
+  induction J with
+  | zero =>
+    simp only [Orb.fwd, oinit, pow_zero] at hk ⊢
+    rw [if_neg]; intro h; apply hk; omega
+  | succ J ih =>
+    have hj : (o.fwd m J (oinit i)).j = J := by rw [o.fwd_j]; simp [oinit]
+    simp only [Orb.fwd, Orb.body, hj] at hk ⊢
+    have hp : (2 : ℤ) ^ (J + 1) = 2 * 2 ^ J := by rw [pow_succ]; ring
+    have hpos : (0 : ℤ) < 2 ^ J := by positivity
+    rw [hp] at hk
+    by_cases hb : m.testBit J = true
+    · simp only [hb, if_true] at hk ⊢
+      rw [ih (by intro h; apply hk; omega)]
+      unfold Orb.unif
+      rw [if_neg (by intro h; apply hk; omega)]; simp
+    · simp only [hb, Bool.false_eq_true, if_false] at hk ⊢
+      rw [ih (by intro h; apply hk; omega)]
+      unfold Orb.unif
+      rw [if_neg (by intro h; apply hk; omega)]; simp
+
+/-! ### block-indexed quantities: start `i` in the block `[a, a + 2^J)` reached after `J` doublings -/
+
+/-- law of the current state after the `J` doublings that lead from `i` to the block `[a, a+2^J)` -/
+def Orb.D (o : Orb) (J : ℕ) (a i k : ℤ) : ℚ := (o.fwd (i - a).toNat J (oinit i)).dist k
+/-- the loop really performs these `J` doublings -/
+def Orb.A (o : Orb) (J : ℕ) (a i : ℤ) : Bool := o.al (i - a).toNat J (oinit i)
+/-- probability weight of "performs the `J` doublings leading to `[a, a+2^J)` and is then at `k`" -/
+def Orb.G (o : Orb) (J : ℕ) (a i k : ℤ) : ℚ := if o.A J a i = true then o.D J a i k else 0
+
+lemma offset_lt (a i : ℤ) (J : ℕ) (h1 : a ≤ i) (h2 : i < a + 2 ^ J) :
+    (i - a).toNat < 2 ^ J ∧ ((i - a).toNat : ℤ) = i - a := by
+  have hc : ((i - a).toNat : ℤ) = i - a := Int.toNat_of_nonneg (by linarith)
+  refine ⟨?_, hc⟩
+  have : ((i - a).toNat : ℤ) < ((2 ^ J : ℕ) : ℤ) := by rw [hc]; push_cast; linarith
+  exact_mod_cast this
+
+lemma Orb.inner_left (o : Orb) (J : ℕ) (a i : ℤ) (h1 : a ≤ i) (h2 : i < a + 2 ^ J) :
+    (o.fwd (i - a).toNat J (oinit i)).lo = a ∧ (o.fwd (i - a).toNat J (oinit i)).j = J := by
+  obtain ⟨hlt, hc⟩ := offset_lt a i J h1 h2
+  refine ⟨?_, by rw [o.fwd_j]; simp [oinit]⟩
+  rw [o.fwd_lo, Nat.mod_eq_of_lt hlt, hc]; ring
+
+lemma Orb.D_left (o : Orb) (J : ℕ) (a i k : ℤ) (h1 : a ≤ i) (h2 : i < a + 2 ^ J) :
+    o.D (J + 1) a i k = o.stay J a (a + 2 ^ J) * o.D J a i k + o.acc J a (a + 2 ^ J) * o.unif (a + 2 ^ J) J k := by
+  obtain ⟨hlt, _⟩ := offset_lt a i J h1 h2
+  obtain ⟨hlo, hj⟩ := o.inner_left J a i h1 h2
+  unfold Orb.D
+  simp only [Orb.fwd, Nat.testBit_lt_two_pow hlt, Orb.body, hlo, hj, Bool.false_eq_true, if_false]
+
+lemma right_offset (a i : ℤ) (J : ℕ) (h1 : a + 2 ^ J ≤ i) (h2 : i < a + 2 ^ (J + 1)) :
+    (i - a).toNat = 2 ^ J + (i - (a + 2 ^ J)).toNat ∧ i < a + 2 ^ J + 2 ^ J := by
+  have hp : (2 : ℤ) ^ (J + 1) = 2 ^ J + 2 ^ J := by rw [pow_succ]; ring
+  have hpos : (0 : ℤ) < 2 ^ J := by positivity
+  refine ⟨?_, by linarith⟩
+  have : ((i - a).toNat : ℤ) = ((2 ^ J + (i - (a + 2 ^ J)).toNat : ℕ) : ℤ) := by
+    push_cast
+    rw [Int.toNat_of_nonneg (by linarith), Int.toNat_of_nonneg (by linarith)]; ring
+  exact_mod_cast this
+
+lemma Orb.fwd_right (o : Orb) (J : ℕ) (a i : ℤ) (h1 : a + 2 ^ J ≤ i) (h2 : i < a + 2 ^ (J + 1)) :
+    o.fwd (i - a).toNat (J + 1) (oinit i) = o.body true (o.fwd (i - (a + 2 ^ J)).toNat J (oinit i)) ∧
+    o.al (i - a).toNat J (oinit i) = o.al (i - (a + 2 ^ J)).toNat J (oinit i) := by
+  obtain ⟨he, h2'⟩ := right_offset a i J h1 h2
+  obtain ⟨hlt, _⟩ := offset_lt (a + 2 ^ J) i J h1 h2'
+  have hbits : ∀ t < J, (i - a).toNat.testBit t = (i - (a + 2 ^ J)).toNat.testBit t := by
+    intro t ht; rw [he, Nat.testBit_two_pow_add_gt ht]
+  have htop : (i - a).toNat.testBit J = true := by
+    rw [he, Nat.testBit_two_pow_add_eq, Nat.testBit_lt_two_pow hlt]; rfl
+  exact ⟨by rw [Orb.fwd, htop, o.fwd_congr _ _ J _ hbits], o.al_congr _ _ J _ hbits⟩
+
+lemma Orb.D_right (o : Orb) (J : ℕ) (a i k : ℤ) (h1 : a + 2 ^ J ≤ i) (h2 : i < a + 2 ^ (J + 1)) :
+    o.D (J + 1) a i k = o.stay J (a + 2 ^ J) a * o.D J (a + 2 ^ J) i k + o.acc J (a + 2 ^ J) a * o.unif a J k := by
+  obtain ⟨_, h2'⟩ := right_offset a i J h1 h2
+  obtain ⟨hlo, hj⟩ := o.inner_left J (a + 2 ^ J) i h1 h2'
+  unfold Orb.D
+  rw [(o.fwd_right J a i h1 h2).1]
+  simp only [Orb.body, hlo, hj, if_true, add_sub_cancel_right]
+
+lemma Orb.A_left (o : Orb) (J : ℕ) (a i : ℤ) (h1 : a ≤ i) (h2 : i < a + 2 ^ J) (hnd : o.nd i = true) :
+    o.A (J + 1) a i = o.good J a := by
+  obtain ⟨hlt, hc⟩ := offset_lt a i J h1 h2
+  unfold Orb.A
+  rw [Orb.al, o.alive_good _ J i hnd, Nat.mod_eq_of_lt hlt, hc]; congr 1; ring
+
+lemma Orb.A_right (o : Orb) (J : ℕ) (a i : ℤ) (h1 : a + 2 ^ J ≤ i) (h2 : i < a + 2 ^ (J + 1))
+    (hnd : o.nd i = true) : o.A (J + 1) a i = o.good J (a + 2 ^ J) := by
+  obtain ⟨he, h2'⟩ := right_offset a i J h1 h2
+  obtain ⟨hlt, hc⟩ := offset_lt (a + 2 ^ J) i J h1 h2'
+  unfold Orb.A
+  rw [Orb.al, o.alive_good _ J i hnd, he, Nat.add_mod_left, Nat.mod_eq_of_lt hlt, hc]; congr 1; ring
+
+lemma Orb.A_of_good (o : Orb) (J : ℕ) (a i : ℤ) (h1 : a ≤ i) (h2 : i < a + 2 ^ J) (hnd : o.nd i = true)
+    (hg : o.good J a = true) : o.A J a i = true := by
+  obtain ⟨hlt, hc⟩ := offset_lt a i J h1 h2
+  have := o.alive_good (i - a).toNat J i hnd
+  rw [Nat.mod_eq_of_lt hlt, hc, show i - (i - a) = a by ring, hg] at this
+  simp only [Bool.and_eq_true] at this
+  exact this.1
+
+lemma Orb.D_support (o : Orb) (J : ℕ) (a i k : ℤ) (h1 : a ≤ i) (h2 : i < a + 2 ^ J)
+    (hk : ¬ (a ≤ k ∧ k < a + 2 ^ J)) : o.D J a i k = 0 := by
+  unfold Orb.D
+  apply o.fwd_support
+  rw [(o.inner_left J a i h1 h2).1]; exact hk
+
+lemma Orb.unif_in (o : Orb) (a : ℤ) (j : ℕ) (k : ℤ) (h1 : a ≤ k) (h2 : k < a + 2 ^ j)
+    (hS : o.S k = true) (hg : o.g k = true) : o.unif a j k = 1 / (cnt o.S a (2 ^ j) : ℚ) := by
+  unfold Orb.unif; rw [if_pos ⟨h1, h2, hS, hg⟩]
+
+lemma Orb.unif_out (o : Orb) (a : ℤ) (j : ℕ) (k : ℤ) (h : ¬ (a ≤ k ∧ k < a + 2 ^ j)) :
+    o.unif a j k = 0 := by
+  unfold Orb.unif; rw [if_neg]; intro h'; exact h ⟨h'.1, h'.2.1⟩
+
+/-- the cross case: `i` in the left half, `k` in the right half of `[a, a + 2^(J+1))` -/
+lemma Orb.G_cross (o : Orb) (hS : ∀ x, o.S x = true → o.nd x = true) (J : ℕ) (a i k : ℤ)
+    (hi1 : a ≤ i) (hi2 : i < a + 2 ^ J) (hk1 : a + 2 ^ J ≤ k) (hk2 : k < a + 2 ^ (J + 1))
+    (hSi : o.S i = true) (hgi : o.g i = true) (hSk : o.S k = true) (hgk : o.g k = true) :
+    o.G (J + 1) a i k = o.G (J + 1) a k i := by
+  have hp : (2 : ℤ) ^ (J + 1) = 2 ^ J + 2 ^ J := by rw [pow_succ]; ring
+  have hk2' : k < a + 2 ^ J + 2 ^ J := by linarith
+  unfold Orb.G
+  rw [o.A_left J a i hi1 hi2 (hS i hSi), o.A_right J a k hk1 hk2 (hS k hSk),
+    o.D_left J a i k hi1 hi2, o.D_right J a k i hk1 hk2,
+    o.D_support J a i k hi1 hi2 (by intro h; linarith [h.2]),
+    o.D_support J (a + 2 ^ J) k i hk1 hk2' (by intro h; linarith [h.1]),
+    o.unif_in (a + 2 ^ J) J k hk1 hk2' hSk hgk, o.unif_in a J i hi1 hi2 hSi hgi]
+  unfold Orb.acc
+  have hL : (0 : ℚ) < (cnt o.S a (2 ^ J) : ℚ) := by
+    have := cnt_pos o.S a (2 ^ J) i hi1 (by push_cast; exact hi2) hSi
+    exact_mod_cast this
+  have hR : (0 : ℚ) < (cnt o.S (a + 2 ^ J) (2 ^ J) : ℚ) := by
+    have := cnt_pos o.S (a + 2 ^ J) (2 ^ J) k hk1 (by push_cast; exact hk2') hSk
+    exact_mod_cast this
+  by_cases gL : o.good J a = true <;> by_cases gR : o.good J (a + 2 ^ J) = true
+  · simp only [gL, gR, if_true, mul_zero, zero_add]
+    exact swap_symmetric _ _ hL hR
+  · simp [gL, gR]
+  · simp [gL, gR]
+  · simp [gL, gR]
+
+/-- **symmetry of the block-indexed weights** -/
+lemma Orb.G_sym (o : Orb) (hS : ∀ x, o.S x = true → o.nd x = true) (J : ℕ) :
+    ∀ a i k : ℤ, a ≤ i → i < a + 2 ^ J → a ≤ k → k < a + 2 ^ J →
+      o.S i = true → o.g i = true → o.S k = true → o.g k = true → o.G J a i k = o.G J a k i := by
+  induction J with
+  | zero =>
+    intro a i k hi1 hi2 hk1 hk2 _ _ _ _
+    have : i = k := by simp only [pow_zero] at hi2 hk2; omega
+    subst this; rfl
+  | succ J ih =>
+    intro a i k hi1 hi2 hk1 hk2 hSi hgi hSk hgk
+    have hp : (2 : ℤ) ^ (J + 1) = 2 ^ J + 2 ^ J := by rw [pow_succ]; ring
+    by_cases hi : i < a + 2 ^ J <;> by_cases hk : k < a + 2 ^ J
+    · -- both in the left half
+      have := ih a i k hi1 hi hk1 hk hSi hgi hSk hgk
+      unfold Orb.G at this ⊢
+      rw [o.A_left J a i hi1 hi (hS i hSi), o.A_left J a k hk1 hk (hS k hSk),
+        o.D_left J a i k hi1 hi, o.D_left J a k i hk1 hk,
+        o.unif_out (a + 2 ^ J) J k (by intro h; linarith [h.1]),
+        o.unif_out (a + 2 ^ J) J i (by intro h; linarith [h.1])]
+      by_cases gL : o.good J a = true
+      · rw [o.A_of_good J a i hi1 hi (hS i hSi) gL, o.A_of_good J a k hk1 hk (hS k hSk) gL] at this
+        simp only [if_true] at this
+        simp only [gL, if_true, this]
+      · simp [gL]
+    · exact o.G_cross hS J a i k hi1 hi (by linarith) hk2 hSi hgi hSk hgk
+    · exact (o.G_cross hS J a k i hk1 hk (by linarith) hi2 hSk hgk hSi hgi).symm
+    · -- both in the right half
+      have hi' : a + 2 ^ J ≤ i := by linarith
+      have hk' : a + 2 ^ J ≤ k := by linarith
+      have hi2' : i < a + 2 ^ J + 2 ^ J := by linarith
+      have hk2' : k < a + 2 ^ J + 2 ^ J := by linarith
+      have := ih (a + 2 ^ J) i k hi' hi2' hk' hk2' hSi hgi hSk hgk
+      unfold Orb.G at this ⊢
+      rw [o.A_right J a i hi' hi2 (hS i hSi), o.A_right J a k hk' hk2 (hS k hSk),
+        o.D_right J a i k hi' hi2, o.D_right J a k i hk' hk2,
+        o.unif_out a J k (by intro h; linarith [h.2]),
+        o.unif_out a J i (by intro h; linarith [h.2])]
+      by_cases gR : o.good J (a + 2 ^ J) = true
+      · rw [o.A_of_good J _ i hi' hi2' (hS i hSi) gR, o.A_of_good J _ k hk' hk2' (hS k hSk) gR] at this
+        simp only [if_true] at this
+        simp only [gR, if_true, this]
+      · simp [gR]
+
+/-! ### assembling the transition probability from blocks -/
+
+/-- weight of "the final interval is the block `[a, a + 2^J)` and the final state is `k`" from the
+    start `i` (without the factor `2^{-J}` of the direction bits): the loop stops after these `J`
+    doublings iff the block is not `good` or the depth bound `r` is reached -/
+def Orb.H (o : Orb) (r J : ℕ) (a i k : ℤ) : ℚ :=
+  if o.good J a = false ∨ J = r then o.G J a i k else 0
+
+lemma Orb.term_eq_H (o : Orb) (r J m : ℕ) (i k : ℤ) (hm : m < 2 ^ J) (hnd : o.nd i = true) :
+    o.term r J m (oinit i) k = o.H r J (i - m) i k := by
+  have hoff : (i - (i - (m : ℤ))).toNat = m := by simp
+  unfold Orb.term Orb.H Orb.G Orb.A Orb.D
+  rw [hoff]
+  have hag := o.alive_good m J i hnd
+  rw [Nat.mod_eq_of_lt hm] at hag
+  by_cases hal : o.al m J (oinit i) = true
+  · rw [hal, Bool.true_and] at hag
+    simp only [hal, true_and, if_true, hag]
+  · simp [hal]
+
+lemma Orb.P_eq (o : Orb) (M : ℕ) (i k : ℤ) (hnd : o.nd i = true) :
+    o.P M i k = ∑ J ∈ range (M + 1), (1 / 2 : ℚ) ^ J * ∑ m ∈ range (2 ^ J), o.H M J (i - m) i k := by
+  unfold Orb.P
+  rw [o.walk_eq_sum]
+  apply Finset.sum_congr rfl; intro J _
+  congr 1
+  apply Finset.sum_congr rfl; intro m hm
+  exact o.term_eq_H M J m i k (Finset.mem_range.mp hm) hnd
+
+lemma sum_range_eq_Ioc (f : ℤ → ℚ) (x : ℤ) (J : ℕ) :
+    ∑ m ∈ range (2 ^ J), f (x - m) = ∑ a ∈ Finset.Ioc (x - 2 ^ J) x, f a := by
+  apply Finset.sum_nbij' (fun m : ℕ => x - (m : ℤ)) (fun a : ℤ => (x - a).toNat)
+  · intro m hm
+    have : (m : ℤ) < 2 ^ J := by exact_mod_cast Finset.mem_range.mp hm
+    simp only [Finset.mem_Ioc]; omega
+  · intro a ha
+    simp only [Finset.mem_Ioc] at ha
+    rw [Finset.mem_range]
+    have : ((x - a).toNat : ℤ) < ((2 ^ J : ℕ) : ℤ) := by
+      rw [Int.toNat_of_nonneg (by omega)]; push_cast; omega
+    exact_mod_cast this
+  · intro m _; simp
+  · intro a ha
+    simp only [Finset.mem_Ioc] at ha
+    rw [Int.toNat_of_nonneg (by omega)]; ring
+  · intro m _; rfl
+
+lemma sum_blocks_sym (F : ℤ → ℤ → ℤ → ℚ) (J : ℕ) (i k : ℤ)
+    (hsym : ∀ a, a ≤ i → i < a + 2 ^ J → a ≤ k → k < a + 2 ^ J → F a i k = F a k i)
+    (h0 : ∀ a x y, a ≤ x → x < a + 2 ^ J → ¬ (a ≤ y ∧ y < a + 2 ^ J) → F a x y = 0) :
+    ∑ m ∈ range (2 ^ J), F (i - m) i k = ∑ m ∈ range (2 ^ J), F (k - m) k i := by
+  rw [sum_range_eq_Ioc (fun a => F a i k), sum_range_eq_Ioc (fun a => F a k i)]
+  have e1 : ∑ a ∈ Finset.Ioc (i - 2 ^ J) i ∩ Finset.Ioc (k - 2 ^ J) k, F a i k
+      = ∑ a ∈ Finset.Ioc (i - 2 ^ J) i, F a i k := by
+    apply Finset.sum_subset Finset.inter_subset_left
+    intro a ha hna
+    simp only [Finset.mem_inter, Finset.mem_Ioc] at ha hna
+    exact h0 a i k (by omega) (by omega) (by intro h; apply hna; omega)
+  have e2 : ∑ a ∈ Finset.Ioc (i - 2 ^ J) i ∩ Finset.Ioc (k - 2 ^ J) k, F a k i
+      = ∑ a ∈ Finset.Ioc (k - 2 ^ J) k, F a k i := by
+    apply Finset.sum_subset Finset.inter_subset_right
+    intro a ha hna
+    simp only [Finset.mem_inter, Finset.mem_Ioc] at ha hna
+    exact h0 a k i (by omega) (by omega) (by intro h; apply hna; omega)
+  rw [← e1, ← e2]
+  apply Finset.sum_congr rfl
+  intro a ha
+  simp only [Finset.mem_inter, Finset.mem_Ioc] at ha
+  exact hsym a (by omega) (by omega) (by omega) (by omega)
+
+lemma Orb.H_zero (o : Orb) (r J : ℕ) (a x y : ℤ) (h1 : a ≤ x) (h2 : x < a + 2 ^ J)
+    (hy : ¬ (a ≤ y ∧ y < a + 2 ^ J)) : o.H r J a x y = 0 := by
+  unfold Orb.H Orb.G
+  rw [o.D_support J a x y h1 h2 hy]; simp
+
+/-- **detailed balance of the orbit-level transition** -/
+lemma Orb.P_sym (o : Orb) (hS : ∀ x, o.S x = true → o.nd x = true) (M : ℕ) (i k : ℤ)
+    (hSi : o.S i = true) (hgi : o.g i = true) (hSk : o.S k = true) (hgk : o.g k = true) :
+    o.P M i k = o.P M k i := by
+  rw [o.P_eq M i k (hS i hSi), o.P_eq M k i (hS k hSk)]
+  apply Finset.sum_congr rfl; intro J _
+  congr 1
+  apply sum_blocks_sym (fun a x y => o.H M J a x y) J i k
+  · intro a h1 h2 h3 h4
+    simp only [Orb.H]
+    rw [o.G_sym hS J a i k h1 h2 h3 h4 hSi hgi hSk hgk]
+  · intro a x y h1 h2 hy
+    exact o.H_zero M J a x y h1 h2 hy
+
+/-! ### total mass and support of the transition -/
+
+lemma Orb.walk_zero_of (o : Orb) (r : ℕ) (st : OSt) (k : ℤ) (h0 : st.dist k = 0)
+    (hk : ¬ (o.S k = true ∧ o.g k = true)) : o.walk r st k = 0 := by
+  induction r generalizing st with
+  | zero => exact h0
+  | succ r ih =>
+    have hb : ∀ b, (o.body b st).dist k = 0 := by
+      intro b
+      have hu : ∀ a j, o.unif a j k = 0 := by
+        intro a j; unfold Orb.unif; rw [if_neg]; intro h; exact hk ⟨h.2.2.1, h.2.2.2⟩
+      simp only [Orb.body, h0, mul_zero, zero_add, hu]
+    simp only [Orb.walk]
+    split
+    · simp only [ih _ (hb true), ih _ (hb false)]; norm_num
+    · exact h0
+
+lemma sum_Ico_eq_range (f : ℤ → ℚ) (a : ℤ) (n : ℕ) :
+    ∑ k ∈ Finset.Ico a (a + n), f k = ∑ t ∈ range n, f (a + t) := by
+  symm
+  apply Finset.sum_nbij' (fun t : ℕ => a + (t : ℤ)) (fun k : ℤ => (k - a).toNat)
+  · intro t ht
+    have := Finset.mem_range.mp ht
+    simp only [Finset.mem_Ico]; omega
+  · intro k hk
+    simp only [Finset.mem_Ico] at hk
+    rw [Finset.mem_range]; omega
+  · intro t _; simp
+  · intro k hk
+    simp only [Finset.mem_Ico] at hk
+    rw [Int.toNat_of_nonneg (by omega)]; ring
+  · intro t _; rfl
+
+lemma Orb.sum_unif_window (o : Orb) (a : ℤ) (j : ℕ) (W : Finset ℤ)
+    (hW : Finset.Ico a (a + 2 ^ j) ⊆ W) :
+    ∑ k ∈ W, o.unif a j k = ∑ t ∈ range (2 ^ j), o.unif a j (a + t) := by
+  have h1 : ∑ k ∈ Finset.Ico a (a + 2 ^ j), o.unif a j k = ∑ k ∈ W, o.unif a j k := by
+    apply Finset.sum_subset hW
+    intro k _ hk
+    apply o.unif_out
+    intro h; apply hk; simp only [Finset.mem_Ico]; exact h
+  rw [← h1]
+  have := sum_Ico_eq_range (fun k => o.unif a j k) a (2 ^ j)
+  push_cast at this
+  exact this
+
+lemma Orb.body_mass (o : Orb) (b : Bool) (st : OSt) (W : Finset ℤ)
+    (hW : Finset.Ico (if b then st.lo - 2 ^ st.j else st.lo + 2 ^ st.j)
+      ((if b then st.lo - 2 ^ st.j else st.lo + 2 ^ st.j) + 2 ^ st.j) ⊆ W)
+    (hm : ∑ k ∈ W, st.dist k = 1) : ∑ k ∈ W, (o.body b st).dist k = 1 := by
+  simp only [Orb.body]
+  rw [Finset.sum_add_distrib, ← Finset.mul_sum, ← Finset.mul_sum, hm, o.sum_unif_window _ _ W hW]
+  unfold Orb.stay; ring
+
+lemma Orb.walk_mass (o : Orb) (r : ℕ) (st : OSt) (W : Finset ℤ)
+    (hW : Finset.Ico (st.lo + 2 ^ st.j - 2 ^ (st.j + r)) (st.lo + 2 ^ (st.j + r)) ⊆ W)
+    (hm : ∑ k ∈ W, st.dist k = 1) : ∑ k ∈ W, o.walk r st k = 1 := by
+  induction r generalizing st with
+  | zero => exact hm
+  | succ r ih =>
+    simp only [Orb.walk]
+    split
+    · have hT : (2 : ℤ) ^ (st.j + 1 + r) = 2 ^ (st.j + (r + 1)) := by congr 1; omega
+      have hX : (2 : ℤ) ^ (st.j + 1) = 2 * 2 ^ st.j := by rw [pow_succ]; ring
+      have hXpos : (0 : ℤ) < 2 ^ st.j := by positivity
+      have hTX : (2 : ℤ) * 2 ^ st.j ≤ 2 ^ (st.j + (r + 1)) := by
+        rw [← hX]; exact pow_le_pow_right₀ (by norm_num) (by omega)
+      have hbody : ∀ b, ∑ k ∈ W, o.walk r (o.body b st) k = 1 := by
+        intro b
+        apply ih
+        · refine subset_trans ?_ hW
+          apply Finset.Ico_subset_Ico
+          · cases b <;> simp only [Orb.body, hT, hX, if_true, Bool.false_eq_true, if_false] <;> linarith
+          · cases b <;> simp only [Orb.body, hT, if_true, Bool.false_eq_true, if_false] <;> linarith
+        · apply o.body_mass b st W _ hm
+          refine subset_trans ?_ hW
+          apply Finset.Ico_subset_Ico
+          · cases b <;> simp only [if_true, Bool.false_eq_true, if_false] <;> linarith
+          · cases b <;> simp only [if_true, Bool.false_eq_true, if_false] <;> linarith
+      rw [Finset.sum_add_distrib, ← Finset.mul_sum, ← Finset.mul_sum, hbody true, hbody false]
+      norm_num
+    · exact hm
+
+lemma Orb.P_zero_of (o : Orb) (M : ℕ) (i k : ℤ) (hne : k ≠ i) (hk : ¬ (o.S k = true ∧ o.g k = true)) :
+    o.P M i k = 0 :=
+  o.walk_zero_of M (oinit i) k (by simp [oinit, hne]) hk
+
+lemma Orb.P_mass (o : Orb) (M : ℕ) (i : ℤ) (W : Finset ℤ)
+    (hW : Finset.Ico (i + 1 - 2 ^ M) (i + 2 ^ M) ⊆ W) : ∑ k ∈ W, o.P M i k = 1 := by
+  unfold Orb.P
+  apply o.walk_mass
+  · simpa [oinit] using hW
+  · have hi : i ∈ W := by
+      apply hW
+      have : (0 : ℤ) < 2 ^ M := by positivity
+      simp only [Finset.mem_Ico]; omega
+    simp only [oinit]
+    rw [Finset.sum_ite_eq' W i]; simp [hi]
+
+/-- invariance of the counting measure on the admissible indices -/
+lemma Orb.P_invariant (o : Orb) (hS : ∀ x, o.S x = true → o.nd x = true) (M : ℕ) (k : ℤ)
+    (hSk : o.S k = true) (hgk : o.g k = true) (W : Finset ℤ)
+    (hW : Finset.Ico (k + 1 - 2 ^ M) (k + 2 ^ M) ⊆ W) :
+    ∑ i ∈ W.filter (fun i => o.S i = true ∧ o.g i = true), o.P M i k = 1 := by
+  have h1 : ∑ i ∈ W.filter (fun i => o.S i = true ∧ o.g i = true), o.P M i k
+      = ∑ i ∈ W.filter (fun i => o.S i = true ∧ o.g i = true), o.P M k i := by
+    apply Finset.sum_congr rfl
+    intro i hi
+    rw [Finset.mem_filter] at hi
+    exact o.P_sym hS M i k hi.2.1 hi.2.2 hSk hgk
+  rw [h1, Finset.sum_filter, ← o.P_mass M k W hW]
+  apply Finset.sum_congr rfl
+  intro i _
+  by_cases h : o.S i = true ∧ o.g i = true
+  · rw [if_pos h]
+  · rw [if_neg h]
+    have hne : i ≠ k := by rintro rfl; exact h ⟨hSk, hgk⟩
+    exact (o.P_zero_of M k i hne h).symm
+
+/-! ## link of the orbit-level data to the model -/
+section Link2
+variable {Z : Type}
+
+/-- the orbit-level data of the trajectory through `z0` in the context `c` -/
+def orbOf (c : Ctx Z) (guard : Z → Bool) (z0 : Z) : Orb where
+  S := sliceAt c z0
+  nd := fun k => notDiverged c (pt c z0 k)
+  ut := fun j a => c.noUturn (pt c z0 a) (pt c z0 (a + 2 ^ j - 1))
+  g := fun k => guard (pt c z0 k)
+
+/-- lower end of the block of `2^j` indices built by `buildTree` in direction `v` from index `k` -/
+def blockLo (v : ℤ) (k : ℤ) (j : ℕ) : ℤ := if v = -1 then k - 2 ^ j else k + 1
+
+lemma buildTree_good (c : Ctx Z) (hinv : StepInverse c) (guard : Z → Bool) (z0 : Z) (v : ℤ)
+    (hv : v = 1 ∨ v = -1) (j : ℕ) : ∀ (k : ℤ) (us : List Rat),
+    (buildTree c v j (pt c z0 k) us).1.s = (orbOf c guard z0).good j (blockLo v k j) ∧
+    ((buildTree c v j (pt c z0 k) us).1.s = true →
+      (buildTree c v j (pt c z0 k) us).1.zminus = pt c z0 (blockLo v k j) ∧
+      (buildTree c v j (pt c z0 k) us).1.zplus = pt c z0 (blockLo v k j + 2 ^ j - 1)) := by
+  induction j with
+  | zero =>
+    intro k us
+    simp only [buildTree, Orb.good, orbOf, pt_step c hinv z0 v hv, blockLo, pow_zero]
+    rcases hv with rfl | rfl
+    · simp
+    · simp only [if_true]
+      refine ⟨by rw [show k + -1 = k - 1 by ring], fun _ => ?_⟩
+      constructor <;> congr 1 <;> ring
+  | succ j ih =>
+    intro k us
+    simp only [buildTree]
+    have I1 := ih k us
+    generalize buildTree c v j (pt c z0 k) us = b1 at I1 ⊢
+    obtain ⟨t1, us1⟩ := b1
+    simp only at I1 ⊢
+    have hp : (2 : ℤ) ^ (j + 1) = 2 ^ j + 2 ^ j := by rw [pow_succ]; ring
+    by_cases hs1 : t1.s = true
+    · simp only [hs1, if_true]
+      obtain ⟨hz1m, hz1p⟩ := I1.2 hs1
+      have hg1 := I1.1; rw [hs1] at hg1
+      rcases hv with rfl | rfl
+      · -- direction +1
+        simp only [show ((1 : ℤ) = -1) = False by decide, if_false, blockLo] at *
+        have hstart : t1.zplus = pt c z0 (k + 2 ^ j) := by rw [hz1p]; congr 1; ring
+        rw [hstart]
+        have I2 := ih (k + 2 ^ j) us1
+        generalize buildTree c 1 j (pt c z0 (k + 2 ^ j)) us1 = b2 at I2 ⊢
+        obtain ⟨t2, us2⟩ := b2
+        simp only at I2 ⊢
+        simp only [Orb.good, ← hg1, Bool.true_and]
+        rw [show k + 1 + 2 ^ j = k + 2 ^ j + 1 by ring, ← I2.1]
+        by_cases hs2 : t2.s = true
+        · obtain ⟨_, hz2p⟩ := I2.2 hs2
+          have e : k + 2 ^ j + 1 + 2 ^ j - 1 = k + 1 + 2 ^ (j + 1) - 1 := by rw [hp]; ring
+          rw [e] at hz2p
+          simp only [hs2, Bool.true_and, hz1m, hz2p, orbOf]
+          exact ⟨trivial, fun _ => ⟨trivial, trivial⟩⟩
+        · simp [hs2]
+      · -- direction −1
+        simp only [if_true, blockLo] at *
+        rw [hz1m]
+        have I2 := ih (k - 2 ^ j) us1
+        generalize buildTree c (-1) j (pt c z0 (k - 2 ^ j)) us1 = b2 at I2 ⊢
+        obtain ⟨t2, us2⟩ := b2
+        simp only at I2 ⊢
+        have e0 : k - 2 ^ (j + 1) = k - 2 ^ j - 2 ^ j := by rw [hp]; ring
+        simp only [Orb.good, e0, sub_add_cancel, ← hg1, Bool.and_true]
+        rw [← I2.1]
+        by_cases hs2 : t2.s = true
+        · obtain ⟨hz2m, _⟩ := I2.2 hs2
+          have e : k - 2 ^ j + 2 ^ j - 1 = k - 2 ^ j - 2 ^ j + 2 ^ (j + 1) - 1 := by rw [hp]; ring
+          rw [e] at hz1p
+          simp only [hs2, Bool.true_and, hz1p, hz2m, orbOf]
+          exact ⟨trivial, fun _ => ⟨trivial, trivial⟩⟩
+        · simp [hs2]
+    · have hf : t1.s = false := by simpa using hs1
+      simp only [hs1]
+      have hg1 := I1.1; rw [hf] at hg1
+      refine ⟨?_, fun h => by simp at h⟩
+      simp only [Orb.good]
+      rcases hv with rfl | rfl
+      · simp only [show ((1 : ℤ) = -1) = False by decide, if_false, blockLo] at *
+        rw [← hg1]; simp
+      · simp only [if_true, blockLo] at *
+        have e0 : k - 2 ^ (j + 1) + 2 ^ j = k - 2 ^ j := by rw [hp]; ring
+        rw [e0, ← hg1]; simp
+
+/-- the continuation flag computed by `loopBody` is the one of the orbit-level `Orb.body` -/
+lemma loopBody_s (c : Ctx Z) (hinv : StepInverse c) (guard : Z → Bool) (z0 : Z) (st : Loop Z)
+    (lo hi : ℤ) (I : LoopInv c z0 st lo hi) (hs : st.s = true) (dist : ℤ → ℚ) :
+    (loopBody c guard st).s =
+      ((orbOf c guard z0).body (dirBit st) { lo := lo, j := st.j, s := true, dist := dist }).s := by
+  have hfull := I.full hs
+  have hp : (2 : ℤ) ^ (st.j + 1) = 2 ^ st.j + 2 ^ st.j := by rw [pow_succ]; ring
+  by_cases hud : (popU st.us).1 < 1 / 2
+  · have hb : dirBit st = false := by simp only [dirBit, hud, decide_true, Bool.not_true]
+    have G := buildTree_good c hinv guard z0 1 (Or.inl rfl) st.j hi (popU st.us).2
+    simp only [loopBody, hud, if_true, hb, Bool.false_eq_true, if_false,
+      show ((1 : Int) = -1) = False by decide, Orb.body, I.zplus]
+    simp only [blockLo, show ((1 : ℤ) = -1) = False by decide, if_false] at G
+    generalize buildTree c 1 st.j (pt c z0 hi) (popU st.us).2 = b at G ⊢
+    obtain ⟨t, us1⟩ := b
+    simp only at G ⊢
+    have e1 : hi + 1 = lo + 2 ^ st.j := by linarith
+    rw [e1] at G
+    by_cases hts : t.s = true
+    · have hz := (G.2 hts).2
+      have e2 : lo + 2 ^ st.j + 2 ^ st.j - 1 = lo + 2 ^ (st.j + 1) - 1 := by rw [hp]; ring
+      rw [e2] at hz
+      have hg := G.1; rw [hts] at hg
+      simp only [hts, Bool.true_and, ← hg, hz, I.zminus]
+      rfl
+    · have hf : t.s = false := by simpa using hts
+      have hg := G.1; rw [hf] at hg
+      simp only [hf, Bool.false_and, ← hg]
+  · have hb : dirBit st = true := by simp only [dirBit, hud, decide_false, Bool.not_false]
+    have G := buildTree_good c hinv guard z0 (-1) (Or.inr rfl) st.j lo (popU st.us).2
+    simp only [loopBody, hud, if_false, hb, if_true, Orb.body, I.zminus]
+    simp only [blockLo, if_true] at G
+    generalize buildTree c (-1) st.j (pt c z0 lo) (popU st.us).2 = b at G ⊢
+    obtain ⟨t, us1⟩ := b
+    simp only at G ⊢
+    by_cases hts : t.s = true
+    · have hz := (G.2 hts).1
+      have e2 : hi = lo - 2 ^ st.j + 2 ^ (st.j + 1) - 1 := by rw [hp]; linarith
+      have hg := G.1; rw [hts] at hg
+      simp only [hts, Bool.true_and, ← hg, hz, I.zplus]
+      rw [e2]; rfl
+    · have hf : t.s = false := by simpa using hts
+      have hg := G.1; rw [hf] at hg
+      simp only [hf, Bool.false_and, ← hg]
+
+/-- the top-level acceptance event `rand() * n < n' and rand() < 1` is `rand() < min(1, n'/n)` -/
+lemma top_accept (u : ℚ) (n n' : ℕ) (hn : 0 < n) :
+    (decide (u * (n : ℚ) < (n' : ℚ)) && decide (u < 1)) = true ↔ u < min 1 ((n' : ℚ) / n) := by
+  have hpos : (0 : ℚ) < n := by exact_mod_cast hn
+  rw [Bool.and_eq_true, decide_eq_true_iff, decide_eq_true_iff, lt_min_iff, lt_div_iff₀ hpos]
+  tauto
+
+end Link2
 end CuqiVerif.C08
